@@ -73,6 +73,8 @@ class Run(object):
             ops.append(("done", a))
         for a in d.dormant:
             ops.append(("done", a))
+        for a in getattr(d, "unstarted", ()):
+            ops.append(("begin", a))
         if f["pending"]:
             for a in d.inflight[: f["pending"]]:
                 if a[2] is None:
@@ -100,6 +102,8 @@ class Run(object):
         if k == "done":
             s, r = self.outcome(sel[1])
             return {"op": "done", "a": list(sel[1]), "status": s, "result": r}
+        if k == "begin":
+            return {"op": "begin", "a": list(sel[1])}
         if k == "pend":
             return {"op": "report", "a": list(sel[1]), "status": st.PENDING}
         if k == "pause":
